@@ -594,6 +594,10 @@ func (n nCmp) eval(e *env) (val, error) {
 		return b2v(!l.isStr && l.i < r.i), nil
 	case ">=":
 		return b2v(!l.isStr && l.i >= r.i), nil
+	case "<=":
+		return b2v(!l.isStr && l.i <= r.i), nil
+	case ">":
+		return b2v(!l.isStr && l.i > r.i), nil
 	}
 	return val{}, fmt.Errorf("bad operator %s", n.op)
 }
@@ -716,7 +720,7 @@ func (p *parser) pred() (node, error) {
 	}
 	t := p.peek()
 	switch {
-	case t.kind == 'p' && (t.text == "=" || t.text == "!=" || t.text == "<" || t.text == ">="):
+	case t.kind == 'p' && (t.text == "=" || t.text == "!=" || t.text == "<" || t.text == ">=" || t.text == "<=" || t.text == ">"):
 		p.p++
 		r, err := p.operand()
 		if err != nil {
@@ -1298,8 +1302,8 @@ func main() {
 				cols["metric"] = val{i: int64(mid)}
 			}
 			span := c.to - c.from
-			tm := c.from + int64(r.Range(-1, int(span)+1))
-			if r.Chance(9, 10) && span > 0 {
+			tm := []int64{c.from - 1, c.from, c.to - 1, c.to}[r.Intn(4)] // the edges of [from, to)
+			if r.Chance(3, 4) && span > 0 {
 				tm = c.from + int64(r.Intn(int(span)))
 			}
 			cols["time"] = val{i: tm}
